@@ -200,7 +200,7 @@ theorem Inv.spawn {g : Ghost} {s : KState ℚ σ} (hi : Inv g s) (self : EvId) (
       · rename_i hpe
         cases hpp
         refine ⟨s.events.size + 1, rfl, by rw [hsz3]; exact Nat.lt_succ_self _,
-          Or.inr ⟨[.resume s.events.size], ?_, by simp [hpe]⟩⟩
+          Or.inr (Or.inl ⟨[.resume s.events.size], ?_, by simp [hpe]⟩)⟩
         rw [hev3, if_pos rfl]
       · have hout' : (s.ev p).out = none := by
           by_cases h : p < s.events.size
@@ -208,6 +208,7 @@ theorem Inv.spawn {g : Ghost} {s : KState ℚ σ} (hi : Inv g s) (self : EvId) (
           · rw [ev_default s p h]; rfl
         obtain ⟨t, h1', h2', h3'⟩ := hi.l.live hlv p pr hpp hout' hrun
         refine ⟨t, h1', by rw [hsz3]; exact Nat.lt_add_right 2 h2', ?_⟩
+        unfold Held at h3' ⊢
         rw [hold t h2']; exact h3'
   -- and its URGENT agenda entry
   refine h3.schedule _ _ _ ?_ ?_ ?_
